@@ -27,6 +27,13 @@ class Ctx:
                       hier=self.hier, max_paths=max_paths)
         return pe.run(func, cls if cls is not None else func.cls, consts=consts, fnbinds=fnbinds)
 
+    def enum_region(self, func, cls, stmts=None, stop=(), resolver=None, may_raise=None, max_depth=0, consts=None):
+        """enumerate a region of func: `stmts` (a statement list inside func; default the whole body),
+        stopping at the statements in `stop`"""
+        pe = PathEnum(self.idx, resolver or SelfResolver(self.idx), may_raise, max_depth=max_depth, hier=self.hier)
+        pe.stop_nodes = set(stop)
+        return pe.run_block(func, cls if cls is not None else func.cls, stmts if stmts is not None else func.node.body, consts=consts)
+
     def method(self, cls, name):
         m = self.idx.find_method(cls, name)
         if m is None:
@@ -105,3 +112,43 @@ def annotated_copy(path, heap=True, versioned=()):
     q.exit, q.env, q.fn, q.nf = path.exit, path.env, path.fn, path.nf
     st = annotate(q, heap=heap, versioned=versioned)
     return q, st
+
+
+def contradictory(path):
+    """A path that takes both outcomes of the same (substituted) condition without an
+    intervening write to anything the condition mentions is infeasible."""
+    seen = {}
+    for ev in path.ev:
+        if ev.kind in ('assign', 'aug'):
+            tgts = []
+            if ev.kind == 'assign':
+                tgts = ev.node.targets if hasattr(ev.node, 'targets') else [ev.node.target]
+            else:
+                tgts = [ev.node.target]
+            names = set()
+            for t in tgts:
+                for el in (t.elts if isinstance(t, (ast.Tuple, ast.List)) else [t]):
+                    base = el
+                    while isinstance(base, ast.Subscript):
+                        base = base.value
+                    names.add(U(base))
+            for k in [k for k in seen if any(_mentions(k, n) for n in names)]:
+                del seen[k]
+        elif ev.kind == 'call':
+            # a call on an object may mutate it: forget conditions mentioning the receiver
+            f = ev.node.func
+            if isinstance(f, ast.Attribute) and f.attr in ('append', 'remove', 'pop', 'extend', 'clear', 'update'):
+                n = U(f.value)
+                for k in [k for k in seen if _mentions(k, n)]:
+                    del seen[k]
+        elif ev.kind == 'cond':
+            txt = '%d:%s' % (ev.frame.fid, U(getattr(ev, '_sub', None) or ev.node))
+            if txt in seen and seen[txt] != ev.a:
+                return True
+            seen[txt] = ev.a
+    return False
+
+
+def _mentions(text, name):
+    import re
+    return re.search(r'(?<![\w.])' + re.escape(name) + r'(?![\w])', text) is not None
